@@ -4,7 +4,8 @@
   lean/GluonModel/Generated/PrimTable.lean     (theorems of C06 quantify over `primTable`)
   harness/src/bin/c06/prim_table.json          (the same table, `include_str!`-ed by the C06 harness)
 
-Sources read: src/lib.rs (module name -> load function), vm/src/primitives.rs, src/std_lib/{io,regex,random}.rs.
+Sources read: src/lib.rs (module name -> load function), vm/src/primitives.rs, vm/src/lazy.rs, vm/src/channel.rs, src/std_lib/{io,regex,random}.rs.
+Entries written `primitive!(n, async fn f)` get kind "async" (they complete through Context::return_future).
 The translator fails (=> the check reports a translation problem) when the source no longer has the shape
 it reads: a registered loader of one of those files that yields no entry, or a `primitive!` it cannot parse.
 """
@@ -15,6 +16,8 @@ FILES = {
     "crate::std_lib::io": "src/std_lib/io.rs",
     "crate::std_lib::regex": "src/std_lib/regex.rs",
     "crate::std_lib::random": "src/std_lib/random.rs",
+    "crate::vm::lazy": "vm/src/lazy.rs",
+    "crate::vm::channel": "vm/src/channel.rs",
 }
 
 
@@ -108,7 +111,8 @@ def fn_body(src, name):
     return src[i:balanced(src, i, "{", "}")]
 
 
-ENTRY = re.compile(r"(?:\(?\s*)(r#)?([A-Za-z_]\w*)\s*=>\s*(record!\s*\{|primitive!\s*\(|primitive::<|TypedBytecode::<)")
+# `name => …` or `(rust_ident "gluon name") => …`
+ENTRY = re.compile(r"(?:\(\s*\w+\s+\"(?P<q>\w+)\"\s*\)|(r#)?(?P<n>[A-Za-z_]\w*))\s*=>\s*(?P<w>record!\s*\{|primitive!\s*\(|primitive::<|TypedBytecode::<)")
 
 
 def entries_of(body):
@@ -121,7 +125,7 @@ def entries_of(body):
             m = ENTRY.search(text, i)
             if not m:
                 return
-            name, what = m.group(2), m.group(3)
+            name, what = (m.group('q') or m.group('n')), m.group('w')
             if what.startswith("record!"):
                 b = m.end() - 1
                 e = balanced(text, b, "{", "}")
@@ -140,6 +144,9 @@ def entries_of(body):
                 if rest[0].startswith('"'):
                     path = rest[0].strip('"')
                     func = rest[1] if len(rest) > 1 else path
+                    if func.startswith("async fn "):
+                        func = func[len("async fn "):].strip()
+                        is_async = True
                 else:
                     path, func = rest[0], rest[0]
                 func = re.sub(r"\s+", " ", func)
